@@ -24,11 +24,15 @@ import (
 	"sync"
 
 	"verif/mc"
+	"verif/obs"
 
 	"github.com/evanoberholster/imagemeta"
 	"github.com/evanoberholster/imagemeta/exif2"
 	"github.com/evanoberholster/imagemeta/imagetype"
+	"github.com/evanoberholster/imagemeta/isobmff"
+	"github.com/evanoberholster/imagemeta/jpeg"
 	"github.com/evanoberholster/imagemeta/verifshim/vsync"
+	"github.com/evanoberholster/imagemeta/xmp"
 )
 
 // yieldReader delivers at most chunk bytes per Read and yields to the
@@ -119,6 +123,33 @@ func c05Drivers() []c05Driver {
 			threads: [][]c05Call{
 				{decodeCall("tz +02:00", tz("+02:00"), 0), c05Call{"DecodeJPEG", func() string { return exifOutcome(imagemeta.DecodeJPEG(newYR(by["jpeg-min-MM"], 0))) }}},
 				{c05Call{"exif2.Parse(tiff-min-II)", func() string { return exifOutcome(exif2.Parse(newYR(by["tiff-min-II"], 0))) }}, decodeCall("tz +01:60", tz("+01:60"), 0)}}},
+		{name: "H7-low-level-entry-points",
+			what: "after sequential JPEG/CR3 decodes (pools populated by every layer): DecodeJPEG || jpeg.ScanJPEG on a plain reader with the library's own Exif/XMP callbacks || isobmff.Reader driven directly: pooled readers of the different layers must never be shared",
+			prelude: func() {
+				imagemeta.DecodeJPEG(bytes.NewReader(by["jpeg-min-MM"]))
+				imagemeta.DecodeCR3(bytes.NewReader(by["cr3-min-MM-64bit"]))
+			},
+			threads: [][]c05Call{
+				one(c05Call{"DecodeJPEG(jpeg-rich-II)", func() string { return exifOutcome(imagemeta.DecodeJPEG(newYR(by["jpeg-rich-II"], 700))) }}),
+				one(c05Call{"jpeg.ScanJPEG(plain reader)", func() string {
+					ir := exif2.NewIfdReader(exif2.Logger)
+					defer ir.Close()
+					var x xmp.XMP
+					err := jpeg.ScanJPEG(newYR(by["jpeg-rich-II"], 700), ir.DecodeJPEGIfd, func(r io.Reader) error { x, _ = xmp.ParseXmp(r); return nil })
+					return exifOutcome(ir.Exif, err) + "|" + obs.Flatten(x).String()
+				}}),
+				one(c05Call{"isobmff.Reader(cr3-rich-II)", func() string {
+					ir := exif2.NewIfdReader(exif2.Logger)
+					defer ir.Close()
+					bmr := isobmff.NewReader(newYR(by["cr3-rich-II"], 1500))
+					defer bmr.Close()
+					bmr.ExifReader = ir.DecodeIfd
+					out := errStr(bmr.ReadFTYP())
+					for i := 0; i < 3; i++ {
+						out += ";" + errStr(bmr.ReadMetadata())
+					}
+					return out + "|" + exifOutcome(ir.Exif, nil)
+				}})}},
 		{name: "H6-error-paths",
 			what: "a decode that fails half-way (early returns and their deferred Puts) || a successful decode || a truncated CR3",
 			threads: [][]c05Call{one(decodeCall("tiff-rich-II cut", by["tiff-rich-II"][:len(by["tiff-rich-II"])*6/10], 400)),
@@ -267,8 +298,6 @@ func c05Free(x *mc.Exec) {
 		}
 	}
 }
-
-var _ = io.EOF
 
 func init() {
 	register(&mc.Check{Property: "C05", Setup: defaultLogger,
